@@ -238,6 +238,10 @@ type list struct{ L []string }
 
 func genList(t *rapid.T) list {
 	n := rapid.IntRange(2, 12).Draw(t, "n")
+	if gen.Chance(t, 4, "longlist") {
+		// sort implementations switch algorithms with length (insertion sort below 12, pdqsort above, ...)
+		n = []int{13, 33, 64, 65, 100, 130, 300}[rapid.IntRange(0, 6).Draw(t, "biglen")]
+	}
 	l := genNearList(t, n)
 	// duplicates and alternative spellings of equal versions matter for the tie-break
 	if rapid.Bool().Draw(t, "dup") {
